@@ -266,7 +266,10 @@ def run_tlc(module, cfg=None, workers=None, simulate=None, depth=None, env=None,
 def tlc_ok(res, what):
     """Raise InfraError unless TLC finished model checking without error."""
     if res.error or res.rc != 0:
-        raise InfraError("%s: TLC failed (%s)\n%s" % (what, res.error or res.rc, res.out[-3000:]))
+        # show TLC's own error message (it precedes the error trace), then the tail
+        k = res.out.find("Error:")
+        head = res.out[k:k + 1500] if k >= 0 else ""
+        raise InfraError("%s: TLC failed (%s)\n%s\n...\n%s" % (what, res.error or res.rc, head, res.out[-2000:]))
     return res
 
 
